@@ -136,7 +136,19 @@ class Driver:
                 self.depth(m.get_buy_order_book(), True), self.depth(m.get_sell_order_book(), False),
                 fr(m._market_prices[t]), fr(m._mid_prices[t]), fr(m._last_executed_prices[t]),
                 fr(m._fundamental_prices[t]), m._executed_volumes[t], fr(m._executed_total_prices[t]),
-                m._n_buy_orders[t], m._n_sell_orders[t]]
+                m._n_buy_orders[t], m._n_sell_orders[t], self.heaps_ok()]
+
+    def heaps_ok(self):
+        """representation invariant behind the model's sorted-list abstraction: both priority queues are binary heaps
+        under Order.__lt__ (a structure that is not a list is not judged here)"""
+        for book in (self.m.buy_order_book, self.m.sell_order_book):
+            h = getattr(book, "priority_queue", None)
+            if not isinstance(h, list):
+                continue
+            for k in range(1, len(h)):
+                if h[k] < h[(k - 1) // 2]:
+                    return False
+        return True
 
     def qat(self, t):
         m = self.m
@@ -317,9 +329,9 @@ def gen_deep(rng):
             if rng.random() < 0.3:
                 ops.append(("qstate",))
         ops.append(("qstate",))
-        for _ in range(rng.randint(1, 4)):
+        for _ in range(rng.choice([1, 2, 3, 4, 6, 9])):
             g = rng.random()
-            if g < 0.6 and mine:
+            if g < 0.7 and mine:
                 k = rng.choice(mine)
                 mine.remove(k)
                 ops.append(("cancel", k))
@@ -358,10 +370,68 @@ def gen_deep(rng):
     return {"market_id": mid, "tick": tick, "mp0": ref, "ops": ops, "mode": "deep"}
 
 
+def gen_heap(rng):
+    """heap stress: many resting orders on both sides (matching off), then all of them removed one by one in random
+    order by cancel / expiry, with the best order, the sorted content and the depth observed after every removal"""
+    tick = rng.choice(DYADIC_TICKS)
+    ref = rng.choice([100.0, 300.0])
+    mid = rng.randint(0, 3)
+    ops = [("tick", ref), ("run", False)]
+    n_add = 0
+    ids = []
+    for _ in range(rng.randint(7, 16)):
+        buy = rng.random() < 0.7
+        lvl = rng.randint(1, 20)
+        price = None if rng.random() < 0.05 else (ref - lvl * tick if buy else ref + lvl * tick)
+        ttl = rng.choice([None, None, None, 1, 2])
+        ops.append(("add", rng.randint(0, 4), mid, buy, price, rng.choice([1, 2, 3]), ttl))
+        ids.append(n_add)
+        n_add += 1
+    ops.append(("qstate",))
+    rng.shuffle(ids)
+    time = 0
+    for k in ids:
+        if rng.random() < 0.12:
+            ops.append(("tick", ref))
+            time += 1
+            ops.append(("qstate",))
+        ops.append(("cancel", k))
+        ops.append(("qstate",))
+    ops.append(("qseries",))
+    return {"market_id": mid, "tick": tick, "mp0": ref, "ops": ops, "mode": "heap"}
+
+
+def gen_tickprobe(rng):
+    """limit prices of every magnitude, on the grid and off it by tiny and by large fractions of a tick
+    (all exactly representable: dyadic tick, < 53 significant bits), both sides, matching off"""
+    tick = rng.choice(DYADIC_TICKS + [2.0 ** -10, 2.0 ** -4, 4.0])
+    mid = rng.randint(0, 3)
+    ops = [("tick", 100.0), ("run", False)]
+    for _ in range(rng.randint(8, 24)):
+        k = rng.choice([rng.randint(1, 50), rng.randint(1, 10 ** 4), rng.randint(1, 2 ** 24), rng.randint(2 ** 24, 2 ** 34)])
+        g = rng.random()
+        if g < 0.25:
+            off = 0.0
+        else:
+            j = rng.choice([1, 1, 2, 3, 5, 8, 12, 16])
+            off = tick * (2.0 ** -j) * rng.choice([1, -1]) * (rng.choice([1, 3]) if j >= 2 else 1)
+        price = k * tick + off
+        assert Fraction(price) == Fraction(k) * Fraction(tick) + Fraction(off)
+        ops.append(("add", rng.randint(0, 4), mid, rng.random() < 0.5, price, rng.choice([1, 2, 3]), None))
+        if rng.random() < 0.3:
+            ops.append(("qstate",))
+    ops.append(("qstate",))
+    return {"market_id": mid, "tick": tick, "mp0": 100.0, "ops": ops, "mode": "tickprobe"}
+
+
 def gen_history(rng, n_ops, mode=None):
-    mode = mode or rng.choice(["continuous", "continuous", "call", "mixed", "deep"])
+    mode = mode or rng.choice(["continuous", "continuous", "call", "mixed", "deep", "deep", "tickprobe", "heap"])
     if mode == "deep":
         return gen_deep(rng)
+    if mode == "heap":
+        return gen_heap(rng)
+    if mode == "tickprobe":
+        return gen_tickprobe(rng)
     tick = rng.choice(DYADIC_TICKS)
     ref = rng.choice([100.0, 300.0, 8.0, 1000.0]) + tick * rng.randint(0, 7)
     mid = rng.randint(0, 3)
@@ -516,8 +586,9 @@ class SuiteM(engine.Suite):
                 for f in sorted(os.listdir(cdir)):
                     if f.endswith(".json"):
                         cases.append(_tup(json.load(open(os.path.join(cdir, f)))))
+        hint = getattr(self, "search_modes", None) if tier == "search" else None
         for _ in range(n):
-            cases.append(gen_history(rng, rng.choice(lens)))
+            cases.append(gen_history(rng, rng.choice(lens), mode=(rng.choice(hint) if hint and rng.random() < 0.8 else None)))
         return cases
 
     def load_case(self, obj):
@@ -564,6 +635,8 @@ class SuiteM(engine.Suite):
                 return ["C06"]
             if sub in (2, 3, 6, 7):
                 return ["C02", "C04"]
+            if sub == 18:
+                return ["C01", "C02", "C03", "C08"]
             if sub is None:
                 return ["C02", "C04", "C06", "C08"]
             return ["C08"]
@@ -618,7 +691,53 @@ class SuiteM(engine.Suite):
         return cur
 
     def variants(self, case, rng):
-        ops = case["ops"]
+        """directed extensions of a disagreeing history: if a heap lost its invariant, drain the book in priority
+        order (cancels) and sweep it (market orders + round) right after the damage; then plain prefixes"""
+        ops = list(case["ops"])
+        res = run_history(case)
+        bad = None
+        for i, (op, ob) in enumerate(zip(res["ops"], res["obs"])):
+            if op[0] == "qstate" and isinstance(ob, list) and len(ob) > 18 and ob[18] is False:
+                bad = i
+                break
+        if bad is not None:
+            import monitors_m
+            tr = monitors_m.Trace(case, res)
+            st = res["obs"][bad]
+            pre = ops[:bad + 1]
+            add_index = {}
+            n = 0
+            for op, ob in zip(res["ops"], res["obs"]):
+                if op[0] == "add":
+                    if isinstance(ob, list):
+                        add_index[ob[1]] = n
+                    n += 1
+            for side in (6, 7):
+                ids = [x[0] for x in st[side] if x[0] in tr.orders]
+                ranked = sorted(ids, key=tr.rank)
+                ext = []
+                for oid in ranked:
+                    ext += [("cancel", add_index[oid]), ("qstate",)]
+                yield dict(case, ops=pre + ext)
+                tot = sum(x[1] for x in st[side])
+                for vol in sorted({1, 2, max(1, tot // 2), max(1, tot - 1), tot}):
+                    yield dict(case, ops=pre + [("run", True), ("add", 0, case["market_id"], side == 7, None, vol, None),
+                                                ("qstate",), ("exec",), ("qstate",)] * 1)
+                    yield dict(case, ops=pre + [("run", True)] + [x for _ in range(4) for x in
+                                                                  [("add", 0, case["market_id"], side == 7, None, max(1, vol // 3), None),
+                                                                   ("qstate",), ("exec",), ("qstate",)]])
+                levels = sorted({tr.orders[x[0]]["price"] for x in st[side] if x[0] in tr.orders and tr.orders[x[0]]["price"] is not None})
+                for lv in levels:
+                    for vol in (1, 2, 3):
+                        yield dict(case, ops=pre + [("run", True), ("add", 0, case["market_id"], side == 7, float(lv), vol, None),
+                                                    ("qstate",), ("exec",), ("qstate",)])
+                    yield dict(case, ops=pre + [("run", True)] + [x for _ in range(3) for x in
+                                                                  [("add", 0, case["market_id"], side == 7, float(lv), 1, None),
+                                                                   ("qstate",), ("exec",), ("qstate",)]])
+                    for n_pre in (1, 2, 3):
+                        yield dict(case, ops=pre + [("run", True)] + [x for _ in range(n_pre) for x in
+                                                                      [("add", 0, case["market_id"], side == 7, None, 1, None), ("exec",)]] +
+                                   [("add", 0, case["market_id"], side == 7, float(lv), 2, None), ("qstate",), ("exec",), ("qstate",)])
         for cut in range(len(ops), 1, -max(1, len(ops) // 15)):
             yield dict(case, ops=ops[:cut] + [("qstate",)])
 
